@@ -1228,4 +1228,42 @@ theorem mkFrags_isFragSet (m : UDPMessage) (cs : List Bytes) (h2 : 2 ≤ cs.leng
   · intro f hf; obtain ⟨i, c, _, rfl⟩ := mkFrags_mem _ _ _ _ _ hf; rfl
   · rw [mkFrags_data, hd]
 
+/-- the whole outcome of the repaired FragUDPMessage (property theorem `frag_outcome`) -/
+theorem fragUDP_outcome (m : UDPMessage) (L : Int) (fs : List UDPMessage) (h : fragUDP m L = .ok fs) :
+    fs = [] ∨ (fs = [m] ∧ (size m : Int) ≤ L) ∨
+    (IsFragSet m fs ∧ (∀ f ∈ fs, 1 ≤ f.data.length ∧ (size f : Int) ≤ L) ∧
+      fs.length = fragCountOf m (L - (headerSize m : Int)).toNat) := by
+  rw [fragUDP_spec] at h
+  simp only [ok.injEq] at h
+  split at h
+  · right; left; exact ⟨h.symm, by assumption⟩
+  · split at h
+    · left; exact h.symm
+    · split at h
+      · left; exact h.symm
+      · rename_i hfit hpos hcnt
+        right; right
+        have hm : 0 < (L - (headerSize m : Int)).toNat := by omega
+        have hc := chunks_count _ hm m.data
+        have hflat := chunks_flatten _ hm m.data
+        have hsz := chunks_size (L - (headerSize m : Int)).toNat m.data
+        have hcount : fragCountOf m (L - (headerSize m : Int)).toNat = (chunksOf (L - (headerSize m : Int)).toNat m.data).length := by
+          unfold fragCountOf; exact hc.symm
+        -- at least two fragments: the message did not fit whole
+        have h2 : 2 ≤ (chunksOf (L - (headerSize m : Int)).toNat m.data).length := by
+          rw [hc]
+          have : (L - (headerSize m : Int)).toNat < m.data.length := by unfold size at hfit; omega
+          apply (Nat.le_div_iff_mul_le hm).mpr
+          omega
+        rw [hcount] at h hcnt
+        subst h
+        refine ⟨mkFrags_isFragSet m _ h2 (by omega) hflat, ?_, by rw [mkFrags_length, hcount]⟩
+        intro f hf
+        obtain ⟨i, c, hc', rfl⟩ := mkFrags_mem _ _ _ _ _ hf
+        have := hsz c (List.mem_of_getElem? hc')
+        refine ⟨this.1, ?_⟩
+        show ((headerSize m + c.length : Nat) : Int) ≤ L
+        omega
+
+
 end Hy.Frag
